@@ -213,6 +213,32 @@ impl Case for C06Case {
                     return ctx.fail("not-the-first-limit-entries", "", info("(a limited hit is not in the unlimited list)".into()));
                 }
             }
+            // how a title is highlighted depends only on the record and the query - also right after
+            // the markers were changed on a store that has just answered the same question
+            if n <= 12 && !hits.is_empty() {
+                let mut st2 = build_store(w.lang, &w.recs, w.limit);
+                let _ = search(&st2, q);
+                st2.highlight_with(("<<", ">>"));
+                let again = search(&st2, q);
+                for h in &again {
+                    let r = w.recs.iter().find(|r| r.0 == h.0).unwrap().clone();
+                    let (lang, q2) = (w.lang, q.clone());
+                    let s = isolated(move || {
+                        let mut s = build_store(lang, &[r], 1);
+                        s.highlight_with(("<<", ">>"));
+                        search(&s, &q2)
+                    });
+                    ctx.count("solo_searches", 1);
+                    match s {
+                        Ok(s) => {
+                            if s.first() != Some(h) {
+                                return ctx.fail("highlight-differs-from-solo", "after-marker-change", info(format!("after highlight_with(<<,>>) the store returns {:?}, the record alone {:?}", h, s.first())));
+                            }
+                        }
+                        Err(e) => return ctx.fail("solo-search-panicked", "", info(e)),
+                    }
+                }
+            }
             let truncated = full.len() > w.limit;
             ctx.label_if(truncated, "truncated");
             ctx.label_if(n > 2 * w.limit && w.limit > 0, "buffer-resorted");
@@ -247,7 +273,17 @@ pub fn decode_c07(src: &mut Source) -> Box<dyn Case> {
     let mut w = gen_rank_world(src, true, true);
     // ratings are `usize`: the order must stay consistent over the whole range, not only for
     // small numbers (timestamps used as ratings are >= 2^31). The shift keeps them distinct.
-    match src.weighted(&[5, 1, 1, 1]) {
+    match src.weighted(&[5, 1, 1, 1, 2]) {
+        4 => {
+            // dense high ratings: neighbours about 1 % apart, the ends several per cent apart
+            let base = *src.pick(&[1000usize, 10_000, 250_000]);
+            let step = base / *src.pick(&[60usize, 100, 150, 300]);
+            let mut order: Vec<usize> = (0..w.recs.len()).collect();
+            order.sort_by_key(|&i| w.recs[i].2);
+            for (rank, &i) in order.iter().enumerate() {
+                w.recs[i].2 = base + rank * step.max(1);
+            }
+        }
         1 => w.recs.iter_mut().for_each(|r| r.2 += 1usize << 31),
         2 => w.recs.iter_mut().for_each(|r| r.2 = (r.2 << 20) + (1usize << 40)),
         3 => w.recs.iter_mut().for_each(|r| r.2 = (1usize << 32) - 1 - r.2),
@@ -292,6 +328,24 @@ impl Case for C07Case {
         let permuted: Vec<Rec> = w.perm.iter().map(|&i| w.recs[i].clone()).collect();
         let store2 = build_store(w.lang, &permuted, w.limit);
         let identity = w.perm.iter().enumerate().all(|(i, &p)| i == p);
+        // the same store emptied and refilled in the permuted order must agree as well - for the
+        // typed queries and for the empty one (with distinct ratings its order is fully determined)
+        let mut store3 = build_store(w.lang, &w.recs, w.limit);
+        let mut all_q: Vec<String> = w.queries.clone();
+        if w.picks[3] % 3 == 0 {
+            all_q.push(String::new());
+        }
+        let before: Vec<Vec<(usize, String)>> = all_q.iter().map(|q| search(&store3, q)).collect();
+        store3.clear();
+        for r in &permuted {
+            store3.add(lucid_suggest_core::Record::new(r.0, &r.1, r.2, &store3.lang));
+        }
+        for (q, b) in all_q.iter().zip(before.iter()) {
+            let after = search(&store3, q);
+            if &after != b {
+                return ctx.fail("insert-order-changes-hits", "after-reload", format!("lang={} query={:?} limit={} n={}: before clear {:?}; after clear and re-adding in order {:?}: {:?}", w.lang, q, w.limit, n, b, w.perm, after));
+            }
+        }
         for q in &w.queries {
             let hits = search(&store, q);
             let hits2 = search(&store2, q);
@@ -379,6 +433,8 @@ pub enum Step {
     Add(Vec<Rec>),
     Limit(usize),
     Search,
+    /// clear the store and fill it with exactly as many records as it held (other ratings)
+    Reload(Vec<Rec>),
 }
 
 fn variant(src: &mut Source, lang: &str, w: &str) -> String {
@@ -434,7 +490,17 @@ pub fn decode_c12(src: &mut Source) -> Box<dyn Case> {
         let mut cur_limit = limit;
         let nsteps = src.range(1, 5);
         for _ in 0..nsteps {
-            match src.weighted(&[3, 3, 2]) {
+            match src.weighted(&[3, 3, 2, 2]) {
+                3 => {
+                    let n_now = nrec + added;
+                    if n_now > 0 {
+                        // (distinct ratings stay distinct: each reload draws from its own thousand)
+                        let reloads = steps.iter().filter(|x| matches!(x, Step::Reload(_))).count();
+                        let newr: Vec<usize> = if distinct { gen_distinct_ratings(src, n_now).into_iter().map(|r| r + 100_000 * (reloads + 1)).collect() } else { (0..n_now).map(|_| src.below(3)).collect() };
+                        let fresh: Vec<Rec> = (0..n_now).map(|i| { let mut r = mk(src, i % total); r.0 = 1000 + i + 1; r.2 = newr[i]; r }).collect();
+                        steps.push(Step::Reload(fresh));
+                    }
+                }
                 0 => {
                     // often exactly as many adds as the limit was raised by
                     let k = if src.chance(1, 2) && cur_limit > limit && cur_limit - limit <= 6 { cur_limit - limit } else { src.range(1, 6) };
@@ -527,6 +593,7 @@ impl Case for C12Case {
                    Step::Add(v) => json!({"add": v.iter().map(|(id, t, r)| json!([id, show(t), r])).collect::<Vec<_>>()}),
                    Step::Limit(l) => json!({"limit": l}),
                    Step::Search => json!("search"),
+                   Step::Reload(v) => json!({"clear_then_add": v.iter().map(|(id, t, r)| json!([id, show(t), r])).collect::<Vec<_>>()}),
                }).collect::<Vec<_>>()})
     }
     fn key(&self) -> u64 {
@@ -548,6 +615,15 @@ impl Case for C12Case {
                             store.add(lucid_suggest_core::Record::new(r.0, &r.1, r.2, &store.lang));
                             recs.push(r.clone());
                         }
+                    }
+                    Step::Reload(fresh) => {
+                        store.clear();
+                        recs.clear();
+                        for r in fresh {
+                            store.add(lucid_suggest_core::Record::new(r.0, &r.1, r.2, &store.lang));
+                            recs.push(r.clone());
+                        }
+                        ctx.label("reloaded-same-size");
                     }
                     Step::Limit(l) => {
                         ctx.label_if(*l > limit, "limit-raised");
